@@ -8,7 +8,7 @@
    the scope checker computes for that position, and that names are identifiers. *)
 From Coq Require Import List String NArith ZArith Bool Arith Lia.
 From EvyV Require Import Base FmtAst Format FormatProofs Pratt PrattProofs Parser ParserProofs ParserRules ParserScope ParserCursor
-  FormatParse FormatParseProofs FormatParseListProofs FormatParseStmtProofs FormatParseBlockProofs FormatParseProgProofs.
+  FormatParse FormatParseProofs FormatParseListProofs FormatParseStmtProofs FormatParseTargetProofs FormatParseBlockProofs FormatParseProgProofs.
 From EvyV.Gen Require Import Prec.
 Import ListNotations.
 Local Open Scope nat_scope.
@@ -66,7 +66,12 @@ Section Acc.
     match st with
     | FmtAst.STypedDecl x t [] => ident_text x = true /\ fty_ty t <> None
     | FmtAst.SInferredDecl x v [] => ident_text x = true /\ top_ok (envG B F G) v
-    | FmtAst.SAssign (FVar x) v [] => ident_text x = true /\ mem_str x (map fst F) = false /\ top_ok (envG B F G) v
+    | FmtAst.SAssign t v [] =>
+        match tgt_split t with
+        | Some (x, steps) => ident_text x = true /\ mem_str x (map fst F) = false /\
+                             Forall (step_ok (envG B F G)) steps /\ top_ok (envG B F G) v
+        | None => False
+        end
     | FmtAst.SCall n args [] =>
         ident_text n = true /\ Forall (item_ok (envG B F G) true) args
     | FmtAst.SReturn (Some v) [] => top_ok (envG B F G) v
@@ -180,6 +185,11 @@ Section Acc.
     apply declare_some_iff. split; [|exact Hc]. intro E. subst G. apply N. clear. induction vs; [reflexivity|assumption].
   Qed.
 
+  Lemma use_in vs G G2 x : use_vars vs G = Some G2 -> In x vs -> cvisible x G = true.
+  Proof.
+    unfold use_vars. destruct (forallb (fun n => cvisible n G) vs) eqn:E; [|discriminate]. intros _ Hin.
+    rewrite forallb_forall in E. exact (E x Hin).
+  Qed.
   Lemma use_one x G G2 : use_vars [x] G = Some G2 -> cvisible x G = true.
   Proof. unfold use_vars. cbn [forallb]. destruct (cvisible x G); [reflexivity|discriminate]. Qed.
 
@@ -296,10 +306,14 @@ Section Acc.
       cbn [stmt_tree scope_stmt] in Hs. destruct (use_vars (tvars (fexpr_tree v)) G) as [G2|] eqn:Hu; [|discriminate Hs]. cbn [obind] in Hs.
       apply sok_decl; [exact Hx | exact (declare_after_use false n _ G G2 G' Hu Hs) | exact Hv].
     - (* assignment *)
-      destruct t; try exact (match He with end). destruct c; [|exact (match He with end)].
-      cbn [eok] in He. destruct He as (Hx & Hnf & Hv).
-      cbn [stmt_tree scope_stmt fexpr_tree tvars] in Hs. destruct (use_vars [_] G) as [G2|] eqn:Hu; [|discriminate Hs].
-      apply sok_assign; [exact Hx | exact Hnf | exact (use_one _ G G2 Hu) | exact Hv].
+      destruct c; [|exact (match He with end)]. cbn [eok] in He.
+      destruct (tgt_split t) as [[x steps]|] eqn:Hsp; [|contradiction]. destruct He as (Hx & Hnf & Hst & Hv).
+      cbn [stmt_tree scope_stmt] in Hs. destruct (use_vars (tvars (fexpr_tree t)) G) as [G2|] eqn:Hu; [|discriminate Hs].
+      eapply sok_assign; try eassumption.
+      apply (use_in _ G G2 x Hu). rewrite (tgt_tree t x steps Hsp).
+      assert (Hg : forall st n1, In x (tvars n1) -> In x (tvars (fold_left step_tree st n1))).
+      { induction st as [|s0 r IH]; intros n1 H1; [exact H1|]. cbn [fold_left]. apply IH. destruct s0; cbn [step_tree tvars]; [apply in_or_app; left; exact H1 | exact H1]. }
+      apply Hg. left. reflexivity.
     - (* call *)
       destruct c; [|exact (match He with end)]. cbn [eok] in He. destruct He as (Hn & Hall).
       cbn [stmt_tree stmt_sok] in Hso. destruct (call_table G n a Hso) as (fi & Hl & Ha). eapply sok_call; eassumption.
